@@ -57,6 +57,32 @@ CHECKS = {
             "packages, misfiled/missing/surplus, all share faults) must fail at the first consuming step, never yield key material, and name exactly the sender when attributable.",
             "'Attributable' = proof, coefficient and share faults; structural faults must only fail without naming a correctly filed honest sender.",
             "DESIGN.md §4 C08"),
+    "C09": ("exploration",
+            "exhaustive small-scope enumeration of delivery histories (two concurrent DKG runs) against a delivery model",
+            "For n in {3,4}, every t, every participant and own run: every filling of the round-one slots with {A,B,absent} and of the round-two slots with {(run, addressee)} or absent is "
+            "executed against the real part2/part3; part3 Ok implies the model's matching condition and internally consistent key material determined by the filed round-one set; all 2^n common "
+            "round-one sets are run jointly (same public package, joint signing). Exhaustive in the stated scope, sampled for n in {5,6} in the thorough tier.",
+            "Exhaustive only for n<=4, two runs, one transcript pair per (suite,n,t,seed). Consistent mixed-run deliveries may be accepted or rejected; perfect single-run delivery must succeed.",
+            "DESIGN.md §4 C09"),
+    "C10": ("exploration",
+            "stateful property-based testing of refresh scenarios (1-3 consecutive refreshes) with exhaustive old/new share mixes",
+            "Generated scenarios over (n,t,ids,key source,procedure,remaining sets,rounds): invariants of refreshed packages, new-only sets sign, every old/new mix over a t-subset fails against both "
+            "public packages in all modes and hand-summed, removed participants are rejected, non-zero constant / changed threshold / unknown participant refreshes are refused.",
+            "'Retires old shares' = mixes and removed participants fail; t old shares alone remain a sharing of the same key and are not asserted to fail.",
+            "DESIGN.md §4 C10"),
+    "C11": ("exploration",
+            "property-based testing of the three repair parts against the harness's own Lagrange interpolation",
+            "Generated (n,t,ids,key source incl. refreshed,helper sets of every size,existing or brand-new repaired identifier): delta sums equal zeta_i*s_i, repaired share lies on the group polynomial "
+            "(= lost share), package fields match, repaired participant signs with t-1 others; too few / duplicate / caller-less helper lists are refused.",
+            "Trusts curve field arithmetic; expected values by the harness's own interpolation through holders other than the helpers where possible.",
+            "DESIGN.md §4 C11"),
+    "C12": ("exploration",
+            "round-trip and differential decoding tests: generated values, enumerated byte mutations, reference-decoder oracle",
+            "Every wire type from generated protocol runs round-trips in postcard and JSON; for fixed-size primitives the reference's invalid-encoding catalogue, random strings, every single-bit flip, "
+            "every first/last byte value and wrong lengths are decoded by the library and by the independent Python decoder (accept/reject must agree, accepted strings must re-encode to themselves); "
+            "packages: every version 1..255, every foreign suite id (binary+JSON), embedded primitives replaced by catalogue entries, bit flips of fixed-layout packages.",
+            "frostref.py decoders define validity (RFC 9591 §6, RFC 8032, RFC 9496, SEC1 compressed only). postcard trailing bytes / over-long varints on variable-layout packages are out of the claim.",
+            "DESIGN.md §4 C12"),
 }
 
 NOT_APPLICABLE = {}
